@@ -53,6 +53,11 @@ def concrete(sym: str, i: int, rng) -> requests.Response:
     r = requests.Response()
     r.status_code = rng.choice(status)
     tok = f'tok{i}'
+    # headers a proxy or the node may add: the retry policy (attempts, delays, outcome) must not depend on them
+    if rng.random() < 0.35:
+        r.headers['Retry-After'] = rng.choice(['1', '2', '3', '5', '30', '120', 'Wed, 21 Oct 2026 07:28:00 GMT', '0'])
+    if rng.random() < 0.15:
+        r.headers['X-RateLimit-Reset'] = str(rng.choice([1, 10, 3600]))
     if stc == 'S200':
         r.headers['content-type'] = 'application/json'
         r._content = json.dumps({'ok': tok}).encode()
